@@ -182,8 +182,15 @@ def instrument(g, wd, gb):
         cmd = "goto-instrument --dfcc harness"
         if g.get("enforce"):
             cmd += " --enforce-contract " + g["enforce"]
+        # a callee that the code under proof no longer references has no symbol: its contract cannot (and need not) be
+        # applied - the function's own postconditions then decide whether dropping the call was right
+        rc, out, _ = sh("goto-instrument --list-symbols %s" % cur, cwd=wd, timeout=300)
+        symbols = {l.split(" ", 1)[0] for l in out.splitlines()}
         for r in g.get("replace", []):
-            cmd += " --replace-call-with-contract " + r
+            if r.split("/")[0] in symbols:
+                cmd += " --replace-call-with-contract " + r
+            else:
+                log.append("callee %s is not referenced any more: contract not applied" % r)
         for r in g.get("fp", []):
             cmd += " --restrict-function-pointer " + r
         if g.get("loops"):
